@@ -42,7 +42,7 @@ def _alarm_handler(signum, frame):
 
 class RunResult:
     __slots__ = ('exit_code', 'out', 'err', 'exception', 'timed_out', 'cwd_changed',
-                 'env_diff', 'elapsed', 'sandboxes')
+                 'env_diff', 'elapsed', 'sandboxes', 'created_dirs')
 
     def __init__(self):
         self.exit_code = None
@@ -54,6 +54,7 @@ class RunResult:
         self.env_diff = None
         self.elapsed = 0.0
         self.sandboxes = []
+        self.created_dirs = []  # every directory made through tempfile.mkdtemp during the run (sandbox roots)
 
     def as_dict(self) -> dict:
         return {k: getattr(self, k) for k in self.__slots__}
@@ -257,6 +258,14 @@ def run_inproc(ws: Workspace,
                 os.environ[k] = v
     env_before = dict(os.environ)
     tempfile.tempdir = ws.tmproot
+    real_mkdtemp = tempfile.mkdtemp
+
+    def recording_mkdtemp(*args, **kwargs):
+        d = real_mkdtemp(*args, **kwargs)
+        res.created_dirs.append(d)
+        return d
+
+    tempfile.mkdtemp = recording_mkdtemp
     old_handler = signal.signal(signal.SIGALRM, _alarm_handler)
     t0 = time.time()
     try:
@@ -302,6 +311,7 @@ def run_inproc(ws: Workspace,
         os.environ.update(saved_env)
         os.chdir(saved_cwd)
         tempfile.tempdir = saved_tempdir
+        tempfile.mkdtemp = real_mkdtemp
     res.sandboxes = ws.sandboxes()
     return res
 
